@@ -11,6 +11,8 @@ import (
 	bcrpb "github.com/google/fhir/go/proto/google/fhir/proto/r4/core/resources/bundle_and_contained_resource_go_proto"
 	ppb "github.com/google/fhir/go/proto/google/fhir/proto/r4/core/resources/patient_go_proto"
 	qpb "github.com/google/fhir/go/proto/google/fhir/proto/r4/core/resources/questionnaire_go_proto"
+	s3dt "github.com/google/fhir/go/proto/google/fhir/proto/stu3/datatypes_go_proto"
+	s3res "github.com/google/fhir/go/proto/google/fhir/proto/stu3/resources_go_proto"
 	"github.com/verily-src/fhirpath-go/fhirpath/compopts"
 	"github.com/verily-src/fhirpath-go/fhirpath/system"
 	"github.com/verily-src/fhirpath-go/fhirpath/patch"
@@ -997,6 +999,16 @@ func c18Fixed(env *core.Env, totality bool) {
 		{"Add(path with ~)", func(r fhir.Resource) error { return patch.Add(r, "Patient.where(id ~ 'p1')", "name", hn, &patch.Options{}) }, false, false},
 		{"Delete(arithmetic)", func(r fhir.Resource) error { return patch.Delete(r, "Patient.name[0 + 0].family & 'x'") }, false, false},
 		{"Delete(boolean)", func(r fhir.Resource) error { return patch.Delete(r, "Patient.active and true") }, false, false},
+		// values of another FHIR version (message names coincide with R4 names, the types do not): refused like any wrong type
+		{"Replace(extension value by an STU3 string)", func(r fhir.Resource) error {
+			return patch.Replace(r, "Patient.extension[0].value", &s3dt.String{Value: "new"})
+		}, false, false},
+		{"Add(extension value, an STU3 string)", func(r fhir.Resource) error {
+			return patch.Add(r, "Patient.extension[0]", "value", &s3dt.String{Value: "new"}, &patch.Options{})
+		}, false, false},
+		{"Replace(name by an STU3 HumanName)", func(r fhir.Resource) error { return patch.Replace(r, "Patient.name[0]", &s3dt.HumanName{}) }, false, false},
+		{"Add(contained, an STU3 Patient)", func(r fhir.Resource) error { return patch.Add(r, "Patient", "contained", &s3res.Patient{}, &patch.Options{}) }, false, false},
+		{"Insert(name, an STU3 HumanName)", func(r fhir.Resource) error { return patch.Insert(r, "Patient.name", &s3dt.HumanName{}, 0) }, false, false},
 		{"Delete(malformed escape)", func(r fhir.Resource) error { return patch.Delete(r, "Patient.name.where(family = '\\u12')") }, false, true},
 	}
 	for _, c := range cases {
@@ -1279,6 +1291,49 @@ func c18OptionsAndRanges(env *core.Env) {
 				if !proto.Equal(p, want) {
 					env.Violatef("C18/options/"+op+"/wrong-element", "patch.%s(`Patient.name[0].given.nth()`) with nth = item %d returned %v; expected %s, observed %s", op, i, perr, trunc(jsonOf(want), 200), trunc(jsonOf(p), 200))
 				}
+			}
+		}
+	}
+	// (a2) a replacement that compares equal to the old value under FHIRPath `=` but is not the same element is a replacement all the same
+	{
+		ext := []*dtpb.Extension{{Url: &dtpb.Uri{Value: "http://u/x"}, Value: &dtpb.Extension_ValueX{Choice: &dtpb.Extension_ValueX_Boolean{Boolean: &dtpb.Boolean{Value: true}}}}}
+		type rc struct {
+			name string
+			mk   func() fhir.Resource
+			path string
+			val  fhir.Base
+		}
+		for _, c := range []rc{
+			{"date with an extension by the bare date", func() fhir.Resource {
+				return &ppb.Patient{BirthDate: &dtpb.Date{ValueUs: 946684800000000, Timezone: "UTC", Precision: dtpb.Date_DAY, Extension: ext}}
+			}, "Patient.birthDate", &dtpb.Date{ValueUs: 946684800000000, Timezone: "UTC", Precision: dtpb.Date_DAY}},
+			{"bare string by the same text with an id", func() fhir.Resource { return mkp() }, "Patient.name[0].given[1]", &dtpb.String{Value: "g1", Id: &dtpb.String{Value: "gid"}}},
+			{"boolean by the same boolean with an extension", func() fhir.Resource { return &ppb.Patient{Active: &dtpb.Boolean{Value: true}} }, "Patient.active", &dtpb.Boolean{Value: true, Extension: ext}},
+			{"decimal 1.0 by 1.00", func() fhir.Resource {
+				return &qpb.Questionnaire{Item: []*qpb.Questionnaire_Item{{LinkId: &dtpb.String{Value: "i"}, Initial: []*qpb.Questionnaire_Item_Initial{{Value: &qpb.Questionnaire_Item_Initial_ValueX{Choice: &qpb.Questionnaire_Item_Initial_ValueX_Decimal{Decimal: &dtpb.Decimal{Value: "1.0"}}}}}}}}
+			}, "Questionnaire.item[0].initial[0].value", &dtpb.Decimal{Value: "1.00"}},
+			{"name by an equal name with an id", func() fhir.Resource { return mkp() }, "Patient.name[0]", &dtpb.HumanName{Id: &dtpb.String{Value: "n1"}, Given: []*dtpb.String{{Value: "g0"}, {Value: "g1"}, {Value: "g2"}}}},
+		} {
+			r := c.mk()
+			var perr error
+			out := env.Guard("patch.Replace equal value", func() { perr = patch.Replace(r, c.path, c.val) })
+			env.Eval(1)
+			env.Cover("replace-by-equal-value")
+			if out.Panicked || out.Dead {
+				if !out.Dead {
+					env.Violatef("C18/panic@"+out.Site+"/"+core.NormMsg(out.PanicMsg), "patch.Replace(%s) panicked: %s", c.name, out.PanicMsg)
+				}
+				continue
+			}
+			if perr != nil {
+				continue
+			}
+			got := fx.Eval(env, c.path, []fhir.Resource{r}, nil, nil)
+			if !got.IsValue() || len(got.Raw) != 1 {
+				continue
+			}
+			if gm, ok := got.Raw[0].(proto.Message); !ok || !proto.Equal(gm, c.val) {
+				env.Violatef("C18/replace/equal-value-not-written", "patch.Replace(`%s`) of a %s returned nil, but the element is still %s (expected %s)", c.path, c.name, trunc(fmt.Sprint(got.Raw[0]), 100), trunc(fmt.Sprint(c.val), 100))
 			}
 		}
 	}
